@@ -565,7 +565,7 @@ def check(model, monitor, prop_kind):
                 continue
             for _, tgt in ti["succ"]:
                 rule(R(pcv(tgt), qv(q1), rk_e, lf, lfsrc, af), pre)
-    res = dict(result="holds", rules=nrules[0], reasons=[])
+    res = dict(result="holds", rules=nrules[0], reasons=[], locations=len(blocks) * len(qstates))
     # vacuity witness: the monitor's final accepting state (resp. a failing return) must be reachable
     Wit = z3.Function("Witness", z3.BoolSort())
     fp.register_relation(Wit)
